@@ -276,7 +276,8 @@ func (s *PfcpServer) sendReqTo(msg message.Message, addr net.Addr) error {
 	}
 
 	txtr := NewTxTransaction(s, addr, s.txSeq)
-	s.txSeq++
+	// the PFCP sequence number is 24 bits wide
+	s.txSeq = (s.txSeq + 1) & 0xffffff
 	s.txTrans[txtr.id] = txtr
 
 	return txtr.send(msg)
